@@ -239,3 +239,53 @@ package enginetest
 //@   ensures [C91.x] result == x
 //@ func badDynNil_nilcall
 //@   requires h != nil
+
+// ---- cases3.go
+//@ autotag nopanic cases3.go C91
+//@ autotag lock cases3.go C91
+//@ autotag term cases3.go C91
+//@ autotag race cases3.go C91
+//@ autotag reach cases3.go C91
+
+//@ protect latch.{val} guarded_by latch.mu
+//@ protect latch.{ready} immutable
+//@ racestrict latch
+//@ closeonly [C91] latch.ready
+//@ guards latch.mu: chanclosed
+//@ typeinv latch := this.ready != nil
+//@ inv latch.mu L1 [C91] := closed(this.ready) == (this.val != 0)
+//@ mono latch.mu [C91] := old(closed(this.ready)) ==> closed(this.ready)
+//@ func (l *latch) okSet
+//@   requires l != nil
+//@ func (l *latch) badSetNoSignal_unlock
+//@   requires l != nil
+//@ func (l *latch) okGet
+//@   requires l != nil
+//@   ensures [C91.x] result != 0
+//@ func (l *latch) okGetSelect
+//@   requires l != nil && stop != nil
+//@   ensures [C91.x] result != 0
+//@ func (l *latch) badGetNoWait_ensures
+//@   requires l != nil
+//@   ensures [C91.x] result != 0
+
+//@ ghost $pendingJobs map[*sched]int
+//@ guards sched.mu: $pendingJobs
+//@ protect sched.{wanted,counter} guarded_by sched.mu
+//@ protect sched.{after} immutable
+//@ racestrict sched
+//@ typeinv sched := this.after != nil
+//@ inv sched.mu J1 [C91] := $pendingJobs[this] >= 0 && (this.wanted ==> $pendingJobs[this] > 0)
+//@ dyn field:sched.after (f)
+//@   modifies nothing
+//@ func (s *sched) okRequest
+//@   requires s != nil
+//@ func (s *sched) badRequestNoTimer_unlock
+//@   requires s != nil
+//@ func (s *sched) schedule
+//@   inline
+//@   callsite after#1 sets $pendingJobs := upd($pendingJobs, s, $pendingJobs[s] + 1)
+//@ func (s *sched) schedule$1
+//@   captures s != nil
+//@   onacquire assume $pendingJobs[s] > 0
+//@   onacquire $pendingJobs := upd($pendingJobs, s, $pendingJobs[s] - 1)
